@@ -384,12 +384,22 @@ def check_witness(match, pattern_text, student_root, problems):
             want = ast.unparse(ast.parse(pattern_text)).strip()
         except SyntaxError:
             want = None
+        candidates = []
         for rid, (rnode, ks) in roots.items():
             try:
                 if want is not None and ast.unparse(rnode).strip() == want:
-                    chosen = rid
+                    candidates.append(rid)
             except Exception:
                 pass
+        if len(candidates) > 1:
+            # the earlier match was made with the very same pattern text (the idiom for nested constructs): this match's own tree is
+            # the one that holds the partner of its root
+            mine = [rid for rid in candidates if any(mappings[k] is match.match_root for k in roots[rid][1])]
+            if len(mine) != 1:
+                problems.append(('match_root-is-paired-in-%d-of-the-pattern-trees-with-this-text' % len(mine), ''))
+                return
+            candidates = mine
+        chosen = candidates[0] if candidates else None
         if chosen is None:
             problems.append(('pairs-of-several-pattern-trees-and-none-is-this-pattern', ''))
             return
@@ -513,6 +523,8 @@ def check_witness(match, pattern_text, student_root, problems):
             # a mapped parent whose partner is a wildcard-paired subtree hides its children legitimately
             if isinstance(par, ast.Name) or isinstance(par, ast.Pass):
                 continue
+            if isinstance(n, ast.Name) and is_exp_placeholder(n.id) and isinstance(par, ast.Expr) and n.id in match.exp_table:
+                continue        # a placeholder standing for a whole statement: the statement is what gets paired (and bound)
             problems.append(('pattern-node-without-partner', '%s under %s' % (type(n).__name__, type(par).__name__)))
     # ---- symbols --------------------------------------------------------------------------------------------------
     for ph, idents in sym.items():
